@@ -24,9 +24,9 @@ Two handlers (stream `two-handlers`, oracle only; notes/STATE_AUDIT.md G6): TWO 
 recording connection, in one scenario; `['via', h, op]` sends an export / unexport / remote call through handler h.
 Objects are exported on one handler, on both in either order, twice, unexported from the first / the last,
 re-exported, moved, a second export fails, or never exported.  Judged: a reply leaves on the connection the call
-arrived on; an assignment to an emitting property of an object some handler holds emits exactly one
-PropertiesChanged in total; whatever an assignment emits leaves on a connection the object WAS exported on (none at
-all for an object never exported).  Not judged (the statement does not say): which of the handlers that held the
+arrived on; an assignment to an emitting property of an object some handler holds emits at least one
+PropertiesChanged, at most one per connection, and nothing else; whatever an assignment emits leaves on a connection
+the object WAS exported on (none at all for an object never exported).  Not judged (the statement does not say): which of the handlers that held the
 object gets the signal, and what an object unexported everywhere does.
 
 Two independent judgements:
@@ -81,8 +81,8 @@ ASSUMPTIONS = [
     "signature 'h' (unix fd) properties are not generated",
     'no user interface declares a signal called PropertiesChanged; calls arrive one at a time',
     'several DBusObjectHandlers: the statement fixes how many PropertiesChanged an assignment emits, not on which of '
-    "the connections the object is or was exported on; the oracle demands one signal in total, on a connection whose "
-    'handler held the object at some time (none for an object never exported); an object unexported from every '
+    "the connections the object is or was exported on; the oracle demands at least one signal, at most one per "
+    'connection, only on connections whose handler held the object at some time (none for an object never exported); an object unexported from every '
     'handler is not judged; handlers / unexport are not in the Lean model (oracle-only stream two-handlers)',
 ]
 RULE = ('a case is one (class chain, instances, history); distinct = distinct canonical JSON of the case; '
@@ -754,17 +754,17 @@ class Impl:
             except Exception:
                 exc = True
             # third component (for the oracle): the object is NOT reachable afterwards
-            gone = handler.exports.get(self.paths[op[1]]) is not self.objs[op[1]]
-            return ('raised' if exc else 'done'), [], gone
+            # third component (for the oracle): the call did not return (exportObject is atomic since b7608b0: the
+            # oracle follows the operations performed, not the implementation's own `exports` table)
+            return ('raised' if exc else 'done'), [], exc
         if kind == 'unexport':
             exc = False
             try:
                 handler.unexportObject(self.paths[op[1]])
             except Exception:
                 exc = True
-            # third component (for the oracle): the handler STILL holds the object
-            held = handler.exports.get(self.paths[op[1]]) is self.objs[op[1]]
-            return ('raised' if exc else 'done'), [], held
+            # third component (for the oracle): the call did not return
+            return ('raised' if exc else 'done'), [], exc
         if kind == 'assign':
             raised = False
             try:
@@ -965,15 +965,19 @@ class Oracle:
                 and x.path == '/o%d' % o and isinstance(x.value, list) and len(x.value) == 3 and x.value[0] == i
                 and isinstance(x.value[1], list) and len(x.value[1]) == 1 and x.value[1][0][0] == p
                 and py_equal(x.value[1][0][1][2], v) and x.value[2] == []]
-        if len(good) == 1:
-            k = ('PropertiesChanged sent on a handler that holds the object' if good[0].conn in self.on.get(o, ())
+        for x in good:
+            k = ('PropertiesChanged sent on a handler that holds the object' if x.conn in self.on.get(o, ())
                  else 'PropertiesChanged sent on a handler that no longer holds the object (where is not judged)')
             self.seen[k] = self.seen.get(k, 0) + 1
-        if len(sigs) != 1 or len(good) != 1:
+        # "one PropertiesChanged signal": one per connection at most (an implementation may notify every connection
+        # the object is exported on, or only one of them - the statement does not choose), at least one in all, and
+        # nothing else
+        conns = [x.conn for x in sigs]
+        if not sigs or len(good) != len(sigs) or len(set(conns)) != len(conns):
             self.flag('changed-signal-missing' if not sigs else 'changed-signal-wrong',
-                      'assigning (%s, %s), declared to emit change notifications, must emit exactly one '
-                      'PropertiesChanged(%s, {%s: value}, [])' % (i, p, i, p), idx,
-                      [(x.member, x.value) for x in sigs], [i, p, tok(v)])
+                      'assigning (%s, %s), declared to emit change notifications, must emit one '
+                      'PropertiesChanged(%s, {%s: value}, []) (at most one per connection, nothing else)'
+                      % (i, p, i, p), idx, [(x.conn, x.member, x.value) for x in sigs], [i, p, tok(v)])
 
     # ---- one operation
     def step(self, idx, op, obs, raised):
@@ -985,12 +989,12 @@ class Oracle:
         kind = op[0]
         o = op[1]
         if kind == 'export':
-            if not raised:            # = the handler really holds the object now
+            if not raised:            # exportObject returned: handler h holds the object now
                 self.on.setdefault(o, set()).add(h)
                 self.ever.setdefault(o, set()).add(h)
             return
         if kind == 'unexport':
-            if not raised:            # = the handler does not hold the object any more
+            if not raised:            # unexportObject returned: handler h does not hold it any more
                 self.on.get(o, set()).discard(h)
             return
         if kind == 'assign':
